@@ -166,6 +166,13 @@ Definition sd_getrange (ap : option (list mattr)) (vtype szof : Z) : option (byt
               else None
   | None => None
   end.
+(** SDgetrange (fall-back branch): attr1 / attr2 are looked up under the names the source gives them, must both have
+    the variable's HDF type, and are copied whole to pmax / pmin (which name reaches which: regenerated) *)
+Definition sd_getrange_fb (ap : option (list mattr)) (vnt sz : Z) : option (bytes * bytes) :=
+  match attr_at ap GETRANGE_MAX_NAME, attr_at ap GETRANGE_MIN_NAME with
+  | Some a1, Some a2 => if (m_hdf a1 =? vnt) && (m_hdf a2 =? vnt) then Some (fixed sz (m_data a1), fixed sz (m_data a2)) else None
+  | _, _ => None
+  end.
 Definition sd_setfill (ap : option (list mattr)) (vnt sz : Z) (v : bytes) : option (option (list mattr)) :=
   sdi_putattr ap _FillValue vnt 1 (fixed sz v).
 Definition sd_getfill (ap : option (list mattr)) : option bytes :=
